@@ -67,12 +67,12 @@ def aliveSet (s : State) : List Nat :=
   reachable s (roots ++ cyc).eraseDups
 
 inductive Viol where
-  | dangling | refcount | ownerMissing | ownerExtra | ownerStale | unreachable
+  | dangling | refcount | ownerMissing | ownerOnEscaped | ownerExtra | ownerStale | unreachable
   deriving DecidableEq, Repr
 
 def Viol.str : Viol → String
   | .dangling => "dangling" | .refcount => "refcount" | .ownerMissing => "owner-missing"
-  | .ownerExtra => "owner-extra" | .ownerStale => "owner-stale" | .unreachable => "unreachable"
+  | .ownerOnEscaped => "owner-on-escaped" | .ownerExtra => "owner-extra" | .ownerStale => "owner-stale" | .unreachable => "unreachable"
 
 /-- insertion sort (structural, so that the kernel can evaluate `verdict`) -/
 def insertSorted (le : Nat → Nat → Bool) (a : Nat) : List Nat → List Nat
@@ -92,7 +92,7 @@ def objViol (s : State) (a : Nat) : Option Viol :=
   let o := s.get a
   if !refCountOK s a then some .refcount
   else if single o && o.owner.isNone then some .ownerMissing
-  else if !single o && o.owner.isSome then some .ownerExtra
+  else if !single o && o.owner.isSome then (if o.rc == 1 then some .ownerOnEscaped else some .ownerExtra)
   else if !ownerHoldsOK s a then some .ownerStale
   else none
 
